@@ -772,3 +772,146 @@ Definition object_subset_sizes (r o : nat) (extra : bool) : list (osize_desc * n
   (if Nat.eqb o 1 && negb extra then [] else map (fun _ => (OOneOptional, (r + 1)%nat)) (seq 0 o))   (* combo != template *)
   ++ map (fun size => (OSubset, (r + size)%nat)) (seq 2 (o - 2))                          (* select_combinations *)
   ++ (if Nat.eqb o 0 then [] else [(OOnlyRequired, r)]).                                  (* set(properties) != required *)
+
+(* ====================================================================== *)
+(* Part 5: the subschemas of the parameter combination blocks              *)
+(*         (builder.py:573-703, _combination_schema + _yield_negative)     *)
+(* ====================================================================== *)
+(* OpenAPI identifies a parameter by the pair (name, in).  A declared parameter: its location,
+   name, required flag, whether its generator put a value into the template, and the schema
+   parameter.as_json_schema(operation) returns for it (S: any representation of a schema) *)
+Record dparam (S : Type) := {
+  dp_loc : loc; dp_name : N; dp_required : bool; dp_in_template : bool; dp_schema : S }.
+Arguments dp_loc {S} _.
+Arguments dp_name {S} _.
+Arguments dp_required {S} _.
+Arguments dp_in_template {S} _.
+Arguments dp_schema {S} _.
+
+(* How _combination_schema obtains the schema of a parameter.  The code calls
+   parameter.as_json_schema(operation) every time (CacheNone).  CacheByName is the sentinel: one
+   dictionary keyed by the parameter NAME, created above the loop over the locations, so that
+   query, header and cookie share it.  CacheByLocName is a cache keyed by the full identity. *)
+Inductive cache_policy := CacheNone | CacheByName | CacheByLocName.
+Definition ckey := (option loc * N)%type.
+Definition ckey_eqb (a b : ckey) : bool :=
+  (match fst a, fst b with
+   | None, None => true
+   | Some x, Some y => loc_eqb x y
+   | _, _ => false
+   end) && N.eqb (snd a) (snd b).
+Definition cache_key (pol : cache_policy) (l : loc) (name : N) : option ckey :=
+  match pol with
+  | CacheNone => None
+  | CacheByName => Some (None, name)
+  | CacheByLocName => Some (Some l, name)
+  end.
+Fixpoint cache_get {S} (k : ckey) (c : list (ckey * S)) : option S :=
+  match c with
+  | [] => None
+  | (k', s) :: r => if ckey_eqb k k' then Some s else cache_get k r
+  end.
+(* the schema used for parameter p, and the cache afterwards *)
+Definition schema_through {S} (pol : cache_policy) (c : list (ckey * S)) (p : dparam S) : S * list (ckey * S) :=
+  match cache_key pol (dp_loc p) (dp_name p) with
+  | None => (dp_schema p, c)
+  | Some k =>
+    match cache_get k c with
+    | Some s => (s, c)
+    | None => (dp_schema p, (k, dp_schema p) :: c)
+    end
+  end.
+
+(* properties[name] = schema: a dict keeps the position of the first insertion *)
+Fixpoint prop_set {S} (name : N) (s : S) (ps : list (N * S)) : list (N * S) :=
+  match ps with
+  | [] => [(name, s)]
+  | (n, s') :: r => if N.eqb n name then (n, s) :: r else (n, s') :: prop_set name s r
+  end.
+
+(* _combination_schema(combination, required, parameter_set)["properties"]: the parameters of
+   THIS location whose name is a key of the combination, in the order of the parameter set *)
+Fixpoint combination_props {S} (pol : cache_policy) (pset : list (dparam S)) (combination : list N)
+         (acc : list (N * S)) (c : list (ckey * S)) : list (N * S) * list (ckey * S) :=
+  match pset with
+  | [] => (acc, c)
+  | p :: r =>
+    if mem_name (dp_name p) combination
+    then let sc := schema_through pol c p in
+         combination_props pol r combination (prop_set (dp_name p) (fst sc) acc) (snd sc)
+    else combination_props pol r combination acc c
+  end.
+
+(* one schema handed to _yield_negative: {properties, required, additionalProperties: false};
+   required is list(set): its order is not specified, compared as a set *)
+Record subschema (S : Type) := {
+  ss_loc : loc; ss_tag : combo_tag; ss_props : list (N * S); ss_required : list N }.
+Arguments ss_loc {S} _.
+Arguments ss_tag {S} _.
+Arguments ss_props {S} _.
+Arguments ss_required {S} _.
+
+Definition at_loc {S} (l : loc) (p : dparam S) : bool := loc_eqb l (dp_loc p).
+
+(* block 2: required + one optional parameter, for every optional name in sorted order; the
+   negative cases are nested inside "combo != base_container and POSITIVE in generation_modes" *)
+Fixpoint optional_subschemas {S} (pol : cache_policy) (pos neg : bool) (l : loc) (pset : list (dparam S))
+         (base required opts : list N) (c : list (ckey * S)) : list (subschema S) * list (ckey * S) :=
+  match opts with
+  | [] => ([], c)
+  | o :: r =>
+    let combo := filter (fun n => mem_name n required || N.eqb n o) base in
+    if negb (Nat.eqb (length combo) (length base)) && pos && neg then
+      let pc := combination_props pol pset combo [] c in
+      let rest := optional_subschemas pol pos neg l pset base required r (snd pc) in
+      ({| ss_loc := l; ss_tag := OneOptional o; ss_props := fst pc; ss_required := required |} :: fst rest, snd rest)
+    else optional_subschemas pol pos neg l pset base required r c
+  end.
+
+(* the subschemas of one location, in the order _yield_negative receives them *)
+Definition combo_subschemas_for {S} (pol : cache_policy) (pos neg : bool) (params : list (dparam S)) (l : loc)
+           (c : list (ckey * S)) : list (subschema S) * list (ckey * S) :=
+  let pset := filter (at_loc l) params in
+  match pset with
+  | [] => ([], c)
+  | _ =>
+    let base := dedup (map dp_name (filter dp_in_template pset)) in
+    let required := dedup (map dp_name (filter dp_required pset)) in
+    let all := dedup (map dp_name pset) in
+    let optional := sort_names (filter (fun n => negb (mem_name n required)) all) in
+    let first :=
+      match required with
+      | [] => ([], c)
+      | _ => if negb (Nat.eqb (length all) (length required)) && neg then
+               let pc := combination_props pol pset (filter (fun n => mem_name n required) base) [] c in
+               ([{| ss_loc := l; ss_tag := OnlyRequired; ss_props := fst pc; ss_required := required |}], snd pc)
+             else ([], c)
+      end in
+    let rest := optional_subschemas pol pos neg l pset base required optional (snd first) in
+    (fst first ++ fst rest, snd rest)
+  end.
+
+(* for location, parameter_set in [query, header, cookie]: the cache (if any) lives above the loop *)
+Definition combo_plan {S} (pol : cache_policy) (pos neg : bool) (params : list (dparam S)) : list (subschema S) :=
+  let q := combo_subschemas_for pol pos neg params LQuery [] in
+  let h := combo_subschemas_for pol pos neg params LHeader (snd q) in
+  let k := combo_subschemas_for pol pos neg params LCookie (snd h) in
+  fst q ++ fst h ++ fst k.
+
+(* _negative_properties on such a subschema, numeric keys only: every property in turn, each with
+   its own cover_schema_iter call (own seen set); the value replaces that property in the container.
+   keys_of reads the numeric keywords off a schema, in dict order *)
+Definition combo_negative_values {S} (keys_of : S -> list nkey) (ss : subschema S) : list (N * negitem) :=
+  flat_map (fun ns => map (fun it => (fst ns, it)) (negative_numbers (keys_of (snd ns)) [])) (ss_props ss).
+
+(* the parameters declared at one identity *)
+Definition declared_at {S} (params : list (dparam S)) (l : loc) (name : N) : list (dparam S) :=
+  filter (fun p => loc_eqb l (dp_loc p) && N.eqb (dp_name p) name) params.
+
+(* region of the statement about caches keyed by the full identity: no identity is declared twice *)
+Fixpoint distinct_identities {S} (params : list (dparam S)) : bool :=
+  match params with
+  | [] => true
+  | p :: r => negb (existsb (fun q => loc_eqb (dp_loc p) (dp_loc q) && N.eqb (dp_name p) (dp_name q)) r)
+              && distinct_identities r
+  end.
